@@ -166,8 +166,82 @@ def phased_circuits(draw, tier, small=False):
 
 
 @st.composite
+def measure_blocks(draw, tier, small=False):
+    """ Distinguishable qubits measured in blocks (Measure(k), k >= 1,
+    destructive or not), then bit swaps, overriding re-measurements and
+    unitaries on surviving qubits: exercises the classical-register
+    bookkeeping of the exporter. """
+    n = draw(st.integers(2, 3 if small else 4))
+    cap = 4 if small else 7
+    scan, layers = [], []
+
+    def add(b, off):
+        layers.append([b, off])
+        scan[off:off + len(specs.bdom(b))] = specs.bcod(b)
+
+    add({"k": "g", "g": "Ket", "a": [0] * n}, 0)
+    angles = draw(st.permutations([1, 2, 3, 5, 6]))
+    for i in range(n):
+        if draw(st.integers(0, 3)):
+            add({"k": "g", "g": "Rx", "a": [angles[i] / 8]}, i)
+        else:
+            add({"k": "g", "g": "X"}, i)
+    fresh = set(range(n))   # positions of qubits not yet measured
+    for _ in range(draw(st.integers(1, 3))):
+        starts = sorted(fresh)
+        if not starts:
+            break
+        off = draw(st.sampled_from(starts))
+        k = 1
+        while off + k in fresh and draw(st.integers(0, 2)):
+            k += 1
+        destructive = len(scan) + k > cap or draw(st.integers(0, 2)) > 0
+        add({"k": "g", "g": "Measure", "a": [k, destructive, False]}, off)
+        shift = 0 if destructive else k
+        fresh = {p if p < off else p + shift for p in fresh
+                 if not off <= p < off + k}
+    for _ in range(draw(st.integers(0, 4))):
+        opts = []
+        bits_adj = [i for i in range(len(scan) - 1)
+                    if scan[i][0] == scan[i + 1][0] == "bit"]
+        mixed_adj = [i for i in range(len(scan) - 1)
+                     if scan[i][0] != scan[i + 1][0]]
+        over = [(i, k) for i in range(len(scan)) for k in (1, 2, 3)
+                if i + 2 * k <= len(scan)
+                and all(w[0] == "qubit" for w in scan[i:i + k])
+                and all(w[0] == "bit" for w in scan[i + k:i + 2 * k])]
+        qs = [i for i, w in enumerate(scan) if w[0] == "qubit"]
+        if bits_adj:
+            opts += ["bswap", "bswap"]
+        if mixed_adj:
+            opts += ["mswap"]
+        if over:
+            opts += ["override", "override"]
+        if qs:
+            opts += ["gate"]
+        if not opts:
+            break
+        kind = draw(st.sampled_from(opts))
+        if kind == "bswap":
+            off = draw(st.sampled_from(bits_adj))
+            add({"k": "swap", "l": scan[off], "r": scan[off + 1]}, off)
+        elif kind == "mswap":
+            off = draw(st.sampled_from(mixed_adj))
+            add({"k": "swap", "l": scan[off], "r": scan[off + 1]}, off)
+        elif kind == "override":
+            off, k = draw(st.sampled_from(over))
+            add({"k": "g", "g": "Measure",
+                 "a": [k, draw(st.booleans()), True]}, off)
+        else:
+            add({"k": "g", "g": draw(st.sampled_from(["X", "H"]))},
+                draw(st.sampled_from(qs)))
+    return {"cls": "circuit", "dom": [], "layers": layers}
+
+
+@st.composite
 def export_cases(draw, tier):
-    spec = draw(st.one_of(export_circuits(tier), phased_circuits(tier)))
+    spec = draw(st.one_of(export_circuits(tier), phased_circuits(tier),
+                          measure_blocks(tier)))
     # exclusion by construction: truncate before the first trigger
     while spec["layers"] and excluded(spec):
         spec = dict(spec, layers=spec["layers"][:-1])
@@ -263,7 +337,8 @@ def roundtrip_cases(draw, tier):
     """ As export_cases, with fewer qubits: the imported circuit keeps every
     qubit alive to the end, so its evaluation grows with all of them. """
     spec = draw(st.one_of(export_circuits(tier),
-                          phased_circuits(tier, small=True)))
+                          phased_circuits(tier, small=True),
+                          measure_blocks(tier, small=True)))
     while spec["layers"] and excluded(spec):
         spec = dict(spec, layers=spec["layers"][:-1])
     return {"d": spec}
